@@ -212,9 +212,11 @@ def setDropList (formula : List Char) : Option (List Char) :=
 
 def two64 : Nat := 18446744073709551616
 
-/-- one loop iteration's `value | rotatedBits` as an unsigned 64-bit pattern -/
+/-- one loop iteration's `value | rotatedBits` as an unsigned 64-bit pattern: the character is
+shifted by its position modulo 15 (a rotation inside the 15-bit register) -/
 def xorTerm (v pos : Nat) : Nat :=
-  let value := if pos < 64 then (v <<< pos) % two64 else 0
+  let sh := pos % 15
+  let value := (v <<< sh) % two64
   let neg := value ≥ two64 / 2
   let rot := (value >>> Facts.C18.xorRot) ||| (if neg then (two64 - 1) - ((two64 >>> Facts.C18.xorRot) - 1) else 0)
   (value &&& Facts.C18.xorMask) ||| rot
@@ -419,12 +421,11 @@ def setSheetViewVZ (st : List Char × Int) (v : List Char) (z : Int) : Option (L
   else some (setView st.1 v, setZoom st.2 z)
 
 /-- `PageSetUp.FirstPageNumber` (none = attribute absent) after `SetPageLayout` with `FirstPageNumber = &new` -/
-def setFirstPage (old : Option Nat) (new : Nat) : Option Nat :=
-  if new > Facts.C18.firstPageNumberAbove then some new else old
+def setFirstPage (_old : Option Nat) (new : Nat) : Option Nat := some new
 
-/-- `GetPageLayout`: default 1; a stored 0 (or nothing) reads 1 -/
+/-- `GetPageLayout`: default 1 when the attribute is absent; a stored number reads back as it is -/
 def getFirstPage : Option Nat → Nat
-  | some n => if n ≠ 0 then n else 1
+  | some n => n
   | none => 1
 
 end XlModel.Settings
